@@ -17,7 +17,7 @@ decode = default_decode(SIG)
 TASK_REQS = 2500
 RULE = ('requests (value, radix): radices 2..=256 and out-of-range ones; structured values plus, for each radix, values with an interior '
         'all-zero chunk (x = hi*(r^p)^2 + lo, p = digits per division chunk of that digit size), interior zero digits, one-digit '
-        'values, r^k and r^k-1, and 2^k-1 / 2^k for every bit length k (a seed-dependent stride when the budget of the configuration is smaller than its bit width). The numeral is computed independently by the monitor; the std formatter is a second oracle for widths '
+        'values, r^k and r^k-1, exact multiples of the division chunk bases with a low digit next to 2^D, and 2^k-1 / 2^k for every bit length k (a seed-dependent stride when the budget of the configuration is smaller than its bit width). The numeral is computed independently by the monitor; the std formatter is a second oracle for widths '
         '<= 128 bits (radix 2/8/10/16). Non-trivial: interior run of >= 2 zero digits, multi-chunk numerals, power-of-two radices '
         'that do not divide the digit width, negative values; distinct = distinct request lines')
 
@@ -41,6 +41,23 @@ def chunk_power(cfg, r):
     while r ** (p + 1) <= half:
         p += 1
     return p
+
+
+def chunk_multiple(cfg, rng, r):
+    """an exact multiple of a division chunk base of radix r (half-digit or whole-digit power) whose low digit is 2^D - t for a small t,
+    optionally followed by random lower digits; as an unsigned pattern"""
+    D, B = cfg.dbits, cfg.B
+    p = chunk_power(cfg, r) if rng.random() < 0.5 else max(1, len(to_digits(B - 1, r)) - 1)
+    base = r ** p
+    j = (base & -base).bit_length() - 1
+    t = (1 << j) * rng.choice((1, 1, 1, 2, 3, rng.randrange(1, 16)))
+    Bq, bq = B >> j, base >> j
+    m = ((-(t >> j)) * pow(bq, -1, Bq)) % Bq if Bq > 1 else 0
+    m += Bq * rng.randrange(0, max(1, min(base, B)))
+    v = m * base
+    k = rng.randrange(0, max(1, cfg.n - 1))
+    v = (v << (D * k)) | (rng.getrandbits(D * k) if k else 0)
+    return v % cfg.mod
 
 
 def requests(cfg, rng, n, tier, part, nparts, st):
@@ -90,6 +107,11 @@ def requests(cfg, rng, n, tier, part, nparts, st):
                 else:
                     d = rng.getrandbits(cfg.dbits)
                 v |= (d % cfg.B) << (cfg.dbits * i)
+        elif rr < 0.5 and rng.random() < 0.5 and cfg.n >= 2:
+            # exact multiples of a division chunk base (the largest power of the radix in half a digit, or in a whole digit) whose low digit is
+            # within a few units of 2^D: the short division by that base then meets a two-digit window that is an exact multiple of the divisor
+            # with an all-but-full low word - the case in which a division by reciprocal, or a quotient estimate, has no slack
+            v = chunk_multiple(cfg, rng, r)
         elif rr < 0.5:
             cap = len(to_digits(cfg.mask, r))
             v = (r ** rng.randrange(0, cap + 1) + rng.choice((-1, 0, 0, 1))) % cfg.mod
